@@ -260,23 +260,27 @@ type Node struct {
 	Qs     []*Node      // conj, disj
 	MinN   int          // disj: min; boolean: should min
 	Must, Should, MustNot, Filter []*Node
-	// K1 (boolean nodes, set by the harness per index): 1 if the should
-	// searcher as built by scorch under score:none reports a Min() below MinN.
-	// Read by spec/Query.tla only in its classification mode.
-	K1 int
 }
 
+// K1Set: the boolean nodes of a query whose should searcher, as a given scorch
+// index builds it under score:none, reports a Min() below MinN (see
+// AnnotateK1). Rendered as node field k1, which spec/Query.tla reads only in
+// its classification mode.
+type K1Set map[*Node]bool
+
 // JSON renders exactly the fields spec/Query.tla reads for the node's type.
-func (n *Node) JSON() map[string]any { return n.JSONMap(nil) }
+func (n *Node) JSON() map[string]any { return n.JSONWith(nil, nil) }
+
+func (n *Node) JSONMap(idmap func(int) (int, bool)) map[string]any { return n.JSONWith(idmap, nil) }
 
 // JSONMap is JSON with the document ids of doc-id queries translated (ids the
 // map does not know - documents that are not live - are dropped: they cannot
 // match).
-func (n *Node) JSONMap(idmap func(int) (int, bool)) map[string]any {
+func (n *Node) JSONWith(idmap func(int) (int, bool), k1 K1Set) map[string]any {
 	nodesJSON := func(ns []*Node) []any {
 		out := []any{}
 		for _, k := range ns {
-			out = append(out, k.JSONMap(idmap))
+			out = append(out, k.JSONWith(idmap, k1))
 		}
 		return out
 	}
@@ -344,7 +348,10 @@ func (n *Node) JSONMap(idmap func(int) (int, bool)) map[string]any {
 	case "boolean":
 		m["must"], m["should"], m["min"] = nodesJSON(n.Must), nodesJSON(n.Should), n.MinN
 		m["mustnot"], m["filter"] = nodesJSON(n.MustNot), nodesJSON(n.Filter)
-		m["k1"] = n.K1
+		m["k1"] = 0
+		if k1[n] {
+			m["k1"] = 1
+		}
 	default:
 		panic("qs: unknown node type " + n.Type)
 	}
